@@ -73,9 +73,32 @@ def run(ctx):
     for s in ['', ' ', '\n', '\t  ']:
         for lang in LANGN:
             cases.append({'op': 'parse', 'lang': lang, 'toks': [], 'text': s})
+    sup = {'PL': ['CTL', 'LTL', 'CTLS'], 'CTL': ['CTLS'], 'LTL': ['CTLS'], 'CTLS': []}
+    primed = []
+    for toks in rnd.sample(valid, min(len(valid), 40 if q else 300)):
+        for lang in ('PL', 'CTL', 'LTL'):
+            primed.append({'op': 'parse', 'lang': lang, 'toks': [list(t) for t in toks], 'prime': rnd.choice(sup[lang])})
     for c in cases:
         c['toks'] = [list(t) for t in c['toks']]
     keep = synfam.run_events(ctx, cases)
+    # parser-construction histories in a fresh interpreter (a parser targeting another language is built first)
+    import os, subprocess, sys
+    cf, of = os.path.join(ctx.tmp, 'c10_cases.json'), os.path.join(ctx.tmp, 'c10_out.json')
+    json.dump(primed, open(cf, 'w'))
+    p = subprocess.run([sys.executable, os.path.join(os.path.dirname(os.path.abspath(__file__)), 'c10_worker.py'), cf, of],
+                       stdout=subprocess.PIPE, stderr=subprocess.STDOUT, text=True, timeout=1500)
+    if p.returncode != 0:
+        from common import MachineryError
+        raise MachineryError('c10 worker failed: ' + p.stdout[-400:])
+    pev = json.load(open(of))
+    for i, e in enumerate(pev):
+        e['tid'] = i
+    ctx.evaluations += len(pev)
+    verdicts = ctx.validate('TraceSyntax.tla', 'TraceSyntax.cfg', pev)
+    for tid, v in sorted(verdicts.items()):
+        ctx.violation('parse after building a parser for another target language: %s; %s' % (v['v'], json.dumps(pev[tid])[:500]),
+                      {'case': {k: pev[tid][k] for k in ('op', 'lang', 'toks', 'prime')}, 'event': pev[tid], 'verdict': v})
+    ctx.note('parser_construction_history_events', len(pev))
     acc = rej = 0
     for c, ev in keep:
         if 'exc' in ev['out']:
